@@ -243,7 +243,7 @@ def stage_lr(work, tier, seed):
     rs = run.run_tlc_shards(work, "TraceLR", "TraceLR.cfg", envs)
     verdicts = [v for r in rs for v in r["verdicts"]]
     wfr = table_shards(work, "lr", pres, "wf")
-    wf = [dict(id=v["id"], wf=v["wf"]) for r in wfr for v in r["verdicts"]]
+    wf = [dict(id=v["id"], wf=v["wf"], epsloop=v["epsloop"]) for r in wfr for v in r["verdicts"]]
     div = []
     for r in rs:
         for line in r["out"].split("\n"):
